@@ -6,7 +6,7 @@ import ast
 from sa.engine.callgraph import calls_in, resolve_call
 from sa.engine.cfg import normally_dominates
 from sa.engine.context import Ctx
-from sa.engine.loader import anorm, AnalysisError, dotted, norm, short, walk_own
+from sa.engine.loader import anorm, AnalysisError, dotted, norm, short, walk_own, is_noise
 from sa.engine.loops import Intervals
 from sa.engine.nullness import M, N, Nullness, ann_optional
 from sa.engine.report import Finding, RuleReport
@@ -440,7 +440,7 @@ def rule_bytes(ctx: Ctx) -> RuleReport:
 def rule_meta(ctx: Ctx) -> RuleReport:
     rep = RuleReport("C04-META", "file metadata is populated from the path before any result is yielded; None path leaves everything None")
     pf = ctx.p.func(DT, "FileMetadataInterface.populate_from_path")
-    first = [s for s in pf.node.body if not (isinstance(s, ast.Expr) and isinstance(s.value, ast.Constant))][0]
+    first = [s for s in pf.node.body if not is_noise(s)][0]
     if isinstance(first, ast.If) and norm(first.test) == "path is None" and isinstance(first.body[-1], ast.Return):
         rep.ok({"populate_from_path": "returns first when path is None"})
     else:
